@@ -193,6 +193,15 @@ impl RADAU {
         let n = y.len();
         let mut rtol = rtol;
         let mut atol = atol;
+        // A scalar tolerance is one shared cell: expand it so that every component is transformed exactly once
+        if n > 0 {
+            if let Tolerance::Scalar(v) = rtol {
+                rtol = Tolerance::Vector(vec![v; n]);
+            }
+            if let Tolerance::Scalar(v) = atol {
+                atol = Tolerance::Vector(vec![v; n]);
+            }
+        }
         for i in 0..n {
             let quot = atol[i] / rtol[i];
             rtol[i] = 0.1 * rtol[i].powf(expm);
